@@ -671,9 +671,7 @@ def sim_open(file, mode="r", *args, **kwargs):
             # the descriptor of the simulated stdin, re-opened by the program
             buffering = args[0] if args else kwargs.get("buffering", -1)
             closefd = kwargs.get("closefd", True)
-            if buffering == 0:
-                return _sources.RawPipeView(pipe, closefd)
-            return pipe
+            return _sources.RawPipeView(pipe, closefd, raw=(buffering == 0))
     real = builtins.open(file, mode, *args, **kwargs)
     if (_sim() is not None or PROXY_FILES["on"]) and mode == "rb" \
             and isinstance(file, str):
@@ -846,13 +844,14 @@ def _make_signal_shim():
     program installs is kept by the simulator, and the simulated Ctrl-C runs
     it in the simulated main thread instead of raising KeyboardInterrupt."""
     m = _SignalShim("signal(sim)")
+    real_signal, real_getsignal = _signal.signal, _signal.getsignal
 
     def signal(signum, handler):
         s = _sim()
         if s is None or signum != _signal.SIGINT:
             if s is not None:
                 return _signal.SIG_DFL     # other signals: accepted, inert
-            return _signal.signal(signum, handler)
+            return real_signal(signum, handler)
         prev = s.sigint_handler
         s.sigint_handler = handler
         s.note("signal.install", getattr(handler, "__name__", str(handler)))
@@ -861,11 +860,14 @@ def _make_signal_shim():
     def getsignal(signum):
         s = _sim()
         if s is None or signum != _signal.SIGINT:
-            return _signal.getsignal(signum)
+            return real_getsignal(signum)
         h = s.sigint_handler
         return h if h is not None else _signal.default_int_handler
 
     m.signal, m.getsignal = signal, getsignal
+    # process-wide too (pass-through outside a simulation): a function-level
+    # `import signal` in the library reaches the real module
+    _signal.signal, _signal.getsignal = signal, getsignal
     return m
 
 
